@@ -20,4 +20,8 @@ def rPublish (size : Nat) (st : RSt) (cu : Bool × Update) : RSt :=
 
 def rRun (size : Nat) (ps : List (Bool × Update)) : RSt := ps.foldl (rPublish size) {}
 
+/-- The same machine when the retention size may change between publications (the hub restarted with
+    another `size` on the same database file): each publication carries the size in force. -/
+def rRunV (ps : List (Nat × Bool × Update)) : RSt := ps.foldl (fun st p => rPublish p.1 st p.2) {}
+
 end Mercure
